@@ -2,6 +2,7 @@
 import sys
 import common
 import core_checks
+import coreops
 
 RULE = ("random models (2-5 reactions, 2-5 metabolites, <= 4 genes, groups) and random op sequences (3-14 ops, ~12 % failing) "
         "over bounds, stoichiometry, rules, objective, add/remove reactions / metabolites / boundaries / genes, *=, nested contexts; raw GLPK "
@@ -9,7 +10,7 @@ RULE = ("random models (2-5 reactions, 2-5 metabolites, <= 4 genes, groups) and 
 
 
 def run(ctx):
-    return core_checks.run_core_property(ctx, "CobraModel.Props.C01", kinds=None, oracles=("sync",), quick=300, thorough=6000, rule=RULE)
+    return core_checks.run_core_property(ctx, "CobraModel.Props.C01", kinds=None, oracles=("sync",), quick=300, thorough=6000, rule=RULE, profiles=coreops.PROFILES)
 
 
 if __name__ == "__main__":
